@@ -72,7 +72,7 @@ partial def loop (h : IO.FS.Stream) (out : IO.FS.Stream) : IO Unit := do
   let v := match parseLine line.toList [] with
     | some ts => if ts.isEmpty then Verdict.skip "blank" else dispatch ts
     | none => Verdict.badOp "parse"
-  out.putStrLn v.render
+  out.putStrLn (String.ofList (v.render.toList.map fun c => if c == '\n' || c == '\r' then ' ' else c))
   loop h out
 
 def main : IO Unit := do
